@@ -5,6 +5,10 @@ from .vm import (Struct, Enum, Seq, Ref, SliceRef, Iter, Closure, Opaque, FnItem
 from .alg import Fl
 from .intrinsics import slice_refs, as_slice, deref_val, slice_items
 
+class _Skip:
+    def __repr__(self): return 'SKIP'
+SKIP = _Skip()     # an item removed by a filter_map stage
+
 def to_iter(vm, m, v):
     """IntoIterator for the values engine S knows"""
     if isinstance(v, Iter): return v
@@ -29,9 +33,15 @@ def pull(vm, m, it, k):
         nxt = []
         for (mm, kind, v) in outs:
             if kind != 'ret': nxt.append((mm, kind, v)); continue
+            if v is SKIP and st[0] != 'filter_map': nxt.append((mm, kind, v)); continue
             if st[0] == 'map': nxt += list(vm.call_closure(mm, st[1], [v]))
             elif st[0] == 'enumerate': nxt.append((mm, 'ret', Struct((st[1] + k, v))))
             elif st[0] == 'cloned': nxt.append((mm, 'ret', deref_val(vm, mm, v)))
+            elif st[0] == 'filter_map':
+                if v is SKIP: nxt.append((mm, kind, v)); continue
+                for (m2, k2, v2) in vm.call_closure(mm, st[1], [v]):
+                    if k2 != 'ret': nxt.append((m2, k2, v2))
+                    else: nxt.append((m2, 'ret', v2.f[0] if v2.name == 'Some' else SKIP))
             else: raise Unmodelled('iterator stage ' + st[0])
         outs = nxt
     return outs
@@ -39,8 +49,10 @@ def pull(vm, m, it, k):
 def dispatch(vm, m, c, args):
     if c.endswith(' as IntoIterator>::into_iter'): return ret(m, to_iter(vm, m, args[0]))
     mm = re.search(r' as Iterator>::(\w+)(?:::<.*>)?$', c)
+    if mm is None and c.endswith(' as Itertools>::collect_vec'): mm = re.search(r'(collect)_vec$', c)
     if mm:
         n = mm.group(1)
+        if n == 'filter_map': it = to_iter(vm, m, args[0]); return ret(m, Iter(it.items, it.stages + (('filter_map', args[1]),)))
         if n == 'zip':
             a = to_iter(vm, m, args[0]); b = to_iter(vm, m, args[1])
             if a.stages or b.stages: raise Unmodelled('zip of mapped iterators')
@@ -75,6 +87,7 @@ def dispatch(vm, m, c, args):
             outs = []
             for (m2, kind, v) in pull(vm, m, it, 0):
                 if kind != 'ret': outs.append((m2, kind, v)); continue
+                if v is SKIP: raise Unmodelled('next() on a filter_map iterator')
                 st = tuple((s[0], s[1] + 1) if s[0] == 'enumerate' else s for s in it.stages)
                 vm.write_at(m2, r.cell, list(r.path), Iter(it.items[1:], st)); outs.append((m2, 'ret', SOME(v)))
             return outs
@@ -85,7 +98,7 @@ def dispatch(vm, m, c, args):
                 for (m1, acc) in outs:
                     for (m2, kind, v) in pull(vm, m1, it, k):
                         if kind != 'ret': return [(m2, kind, v)]
-                        nxt.append((m2, acc + [v]))
+                        nxt.append((m2, acc + ([] if v is SKIP else [v])))
                 outs = nxt
             res = []
             for (m1, vals) in outs:
